@@ -235,6 +235,25 @@ def array_from_seq(eng, seq):
     return I.Arr((n,), lambda i: select_const(i, [lambda x=x: x for x in vals]), dt)
 
 
+def array_from_lazy(eng, s):
+    """np.array(list of symbolic length): scalars give a 1-D array, equal-shaped arrays are stacked along a new first axis."""
+    I = _I()
+    from . import lazyseq as LZ
+    items = LZ.concrete_items(eng, s)
+    if items is not None:
+        return array_from_seq(eng, items)
+    probe = unwrap(s.item(T.fresh("probe", "int")))
+    item = s.item
+    if isinstance(probe, I.Arr):
+        if any(T.is_sym(d) for d in probe.shape):
+            raise Unsupported("np.array of a lazy sequence of arrays with symbolic shape")
+        return I.Arr((s.length,) + tuple(probe.shape), lambda i, *rest: unwrap(item(i)).fn(*rest), probe.dtype)
+    if T.is_scalar(probe):
+        dt = scalar_dtype(probe)
+        return I.Arr((s.length,), lambda i: coerce(unwrap(item(i)), dt), dt)
+    raise Unsupported(f"np.array of a lazy sequence of {type(probe).__name__}")
+
+
 def coerce(x, dt):
     if dt == "real":
         if isinstance(x, bool):
@@ -473,6 +492,8 @@ def truth(eng, v):
         raise _I().PyRaise("ValueError", ("truth value of an array is ambiguous",))
     if isinstance(v, I.GeneratorValue):
         return True
+    if type(v).__name__ == "LazySeq":
+        return T.compare("ne", v.length, 0)
     return True
 
 
@@ -500,6 +521,13 @@ def iterate(eng, v, allow_symbolic=False):
     if isinstance(v, I.GeneratorValue):
         items = v.items[v.pos:]
         v.pos = len(v.items)
+        return items
+    if type(v).__name__ in ("LazySeq", "LazyIter", "ISlice"):
+        from . import lazyseq as LZ
+        r = LZ.drain(eng, v)
+        items = LZ.concrete_items(eng, r)
+        if items is None:
+            raise Unsupported("iteration over a lazy sequence of symbolic length without a loop contract")
         return items
     if isinstance(v, I.Arr):
         if v.ndim == 0:
